@@ -15,6 +15,7 @@ const B: &[&str] = &[
     "neg_subsec_millis", "neg_subsec_micros", "neg_subsec_nanos", "millis_out_of_range", "micros_out_of_range",
     "nanos_opt_none_below", "nanos_opt_none_above", "nanos_opt_edge_some", "systemtime_pre_epoch", "systemtime_post_epoch",
     "reverse_from_civil", "exhaustive_day_seconds", "exhaustive_millis_around_epoch", "pre_epoch", "i64_extreme",
+    "systemtime_local_zone_not_utc",
 ];
 const FLOOR: &[&str] = B;
 
@@ -603,6 +604,40 @@ pub fn run(ctx: &Ctx) -> Outcome {
                     }
                 }
                 Err(p) => loc.violation(&format!("C02/now/panic@{}", p.site()), json!({"panic": p.to_json()})),
+            }
+        }
+    }
+    // the system clock type and DateTime<Local> in a process whose local zone is not UTC (child
+    // processes with TZ set): the conversion must keep the instant and show the zone's offset there
+    {
+        use crate::props::tzchild::{self, Ans};
+        let mut loc = rep.local();
+        let bk = bi("systemtime_local_zone_not_utc");
+        for (zi, tz) in ["JST-9", "NST3:30NDT,M3.2.0,M11.1.0", "<+1245>-12:45<+1345>,M9.5.0,M4.1.0/3"].iter().enumerate() {
+            let mut rng = Rng::new(ctx.seed, "C02/local-child", zi as u64);
+            let q: Vec<(char, i64)> = (0..ctx.n(200, 10_000))
+                .map(|_| {
+                    ('U', match rng.below(3) {
+                        0 => rng.range(1_600_000_000, 1_700_000_000),
+                        1 => rng.range(-2_000_000_000, 4_000_000_000),
+                        _ => *rng.pick(&[1_615_705_200i64, 1_636_264_800, 1_632_578_400, 1_617_458_400, 0, -1]) + rng.range(-90_000, 90_000),
+                    })
+                })
+                .collect();
+            match tzchild::run_child(&ctx.work_dir, &format!("c02-{}", zi), Some(tz), &q) {
+                Ok(ans) => {
+                    for ((_, u), a) in q.iter().zip(ans.iter()) {
+                        loc.eval();
+                        loc.bucket(bk);
+                        match a {
+                            Ans::Single(_) => {}
+                            Ans::Panic(msg) if msg.starts_with(tzchild::GLUE) => loc.violation("C02/Local-child/conversion-changes-the-instant-or-shows-a-wrong-offset", json!({"TZ": tz, "unix": u, "message": msg})),
+                            other => loc.violation("C02/Local-child/panic-or-error", json!({"TZ": tz, "unix": u, "observed": other.print()})),
+                        }
+                        loc.nontrivial(h2(94, h2(zi as u64, *u as u64)));
+                    }
+                }
+                Err(e) => rep.harness_error(format!("C02 local-zone child: {}", e)),
             }
         }
     }
